@@ -17,6 +17,14 @@ fn main() {
         let code = mcmc_verif::props::child_main(&args[1..]);
         std::process::exit(code);
     }
+    if args[0] == "BENCH3" {
+        mcmc_verif::props::bench3();
+        return;
+    }
+    if args[0] == "BENCH4" {
+        mcmc_verif::props::bench4();
+        return;
+    }
     if args[0] == "BENCH2" {
         mcmc_verif::props::bench2();
         return;
@@ -25,12 +33,25 @@ fn main() {
         mcmc_verif::props::bench();
         return;
     }
+    if args[0] == "BENCH_16_IN_POOL" {
+        rayon::scope(|s| {
+            for _ in 0..16 {
+                s.spawn(|_| mcmc_verif::props::bench());
+            }
+        });
+        return;
+    }
+    if args[0] == "BENCH_IN_POOL" {
+        rayon::scope(|s| s.spawn(|_| mcmc_verif::props::bench()));
+        return;
+    }
     let id = args[0].clone();
     let mut tier = match std::env::var("VERIF_TIER").as_deref() {
         Ok("thorough") => Tier::Thorough,
         _ => Tier::Quick,
     };
     let mut replay: Option<String> = None;
+    let mut shard: Option<(String, u32, u32)> = None;
     let mut i = 1;
     while i < args.len() {
         match args[i].as_str() {
@@ -41,6 +62,13 @@ fn main() {
                     Some("thorough") => Tier::Thorough,
                     _ => usage(),
                 };
+            }
+            "--shard" => {
+                let sec = args.get(i + 1).cloned().unwrap_or_else(|| usage());
+                let idx = args.get(i + 2).and_then(|s| s.parse().ok()).unwrap_or_else(|| usage());
+                let n = args.get(i + 3).and_then(|s| s.parse().ok()).unwrap_or_else(|| usage());
+                shard = Some((sec, idx, n));
+                i += 3;
             }
             "--replay" => {
                 i += 1;
@@ -63,6 +91,7 @@ fn main() {
         std::process::exit(2);
     }
     let mut ctx = Ctx::new(&id, tier, seed, verif_dir);
+    ctx.shard = shard;
     if let Some(p) = replay {
         let txt = std::fs::read_to_string(&p).unwrap_or_else(|e| {
             eprintln!("cannot read replay file {p}: {e}");
@@ -80,6 +109,10 @@ fn main() {
     }
     if !mcmc_verif::props::run(&id, &mut ctx) {
         eprintln!("unknown property id {id}");
+        std::process::exit(2);
+    }
+    if ctx.shard.is_some() {
+        eprintln!("shard mode: section not found");
         std::process::exit(2);
     }
     let code = ctx.finish();
